@@ -292,6 +292,11 @@ func (f *LightFamily) Step(n *Node, op Op) StepResult {
 		fmt.Fprintf(&sb, "F:%s:%s:%s:%s;", fr.prev.Key(), boolKey(fr.cachedPre), fr.op.String(), fr.prevDump)
 	}
 	res.Key = sb.String()
+	// the stored model only serves Ops() (which asks whether there is something to undo): every
+	// transition replays the history from scratch, so drop all frames but the newest to save memory
+	if len(md.stack) > 1 {
+		md.stack = md.stack[len(md.stack)-1:]
+	}
 	res.Next = &Node{Hist: hist, Model: md}
 	return res
 }
